@@ -6,7 +6,7 @@ IDNA_SRC = ["harness/drv_idna.cpp"]
 def _idna_stage(prop, tier):
     return {"name": "idna-enum", "driver": "drv_idna", "config": "rel", "sources": IDNA_SRC + REF_SRC, "flags": REF_FLAGS,
             "args": ["--prop", prop, "--wpt", os.path.join(vlib.REPO, "tests", "wpt"), "--tools", os.path.join(vlib.VERIF, "tools"),
-                     "--deadline", "1500" if tier == "thorough" else "150"],
+                     "--deadline", "1500" if tier == "thorough" else "200"],
             "kinds": ["idna"]}
 
 
